@@ -151,7 +151,9 @@ def resolve_trace(case, result):
 def layout_event(case, result):
     """-> one event for TraceLayout (or None when the resolver did not succeed)."""
     events = result.get("events") or []
-    if not any(e.get("ev") == "resolved" for e in events):
+    resolved = next((e for e in events if e.get("ev") == "resolved"), None)
+    # (errors: a failed #assert was reported during the passes; the assembly stops there)
+    if resolved is None or resolved.get("errors"):
         return None
     banks = banks_of(result)
     # items of the final pass
